@@ -370,6 +370,12 @@ def discharge_local(site, vres=None):
             if mr and mb:
                 K = mr.group(1) or mr.group(2)
                 mk = re.fullmatch(r"branch\(checked_sub\(len\((\w+)\),.*\)\)#Continue\.0|(?:unwrap|expect)\(checked_sub\(len\((\w+)\),.*\).*\)|saturating_sub\(len\((\w+)\),.*\)", K)
+                # K = len(S) - n written as a plain subtraction (the subtraction is its own overflow site; where it does not overflow K <= len(S))
+                mk2 = re.fullmatch(r"Sub\(len\((.*?)\),.*\)", K)
+                if not mk and mk2 and (mk2.group(1) == mb.group(1) or mk2.group(1) == base):
+                    site.discharge = "G"
+                    site.detail = "start ranges over 0..=%s, which is at most len(%s)" % (K[:60], mb.group(1))
+                    return "G"
                 if mk and (mk.group(1) or mk.group(2) or mk.group(3)) == mb.group(1):
                     site.discharge = "G"
                     site.detail = "start ranges over 0..=%s, which is at most len(%s)" % (K[:60], mb.group(1))
